@@ -56,7 +56,7 @@ func TestC06(t *testing.T) {
 			}
 		}
 	}
-	for i := 0; i < mon.Pick(1500, 15000); i++ {
+	for i := 0; i < mon.Pick(1500, 60000); i++ {
 		rg := Sub("C06rand", i)
 		var seed tls.PRNGSeed
 		rg.Read(seed[:])
@@ -68,7 +68,7 @@ func TestC06(t *testing.T) {
 			srcs = append(srcs, src{"randomized", raw, sni, true})
 		}
 	}
-	for i := 0; i < mon.Pick(3000, 20000); i++ {
+	for i := 0; i < mon.Pick(3000, 80000); i++ {
 		rg := Sub("C06spec", i)
 		spec, d := GenSpec(rg, GenOpts{})
 		hasUnrepresentable := false
@@ -83,7 +83,7 @@ func TestC06(t *testing.T) {
 			srcs = append(srcs, src{"custom", raw, sni, !hasUnrepresentable})
 		}
 	}
-	for i := 0; i < mon.Pick(2000, 20000); i++ {
+	for i := 0; i < mon.Pick(2000, 80000); i++ {
 		rg := Sub("C06foreign", i)
 		sni := snis[i%3]
 		msg, kinds := ForeignHello(rg, sni)
